@@ -100,7 +100,7 @@ def gen_cases(rng, tier):
         types = sorted(meta.msgs)
         for mt in types * (3 if thorough else 1):
             cs.append(Case(px + "RT s " + G.ser_msg(*gen.message(mt)), "rt-type"))
-        for _ in range(2000 if thorough else 600):
+        for _ in range(2000 if thorough else 400):
             cs.append(Case(px + "RT s " + G.ser_msg(*gen.message()), "rt-random"))
         rich = G.MsgGen(meta, rng, p_opt=0.7)
         for _ in range(400 if thorough else 100):
@@ -137,24 +137,27 @@ def gen_cases(rng, tier):
             k += 1
             if k >= (60 if thorough else 20):
                 break
-        # known-finding class: floats whose real rendering changes the value
+        # known-finding class: floats whose real rendering changes the value (all float classes share
+        # fast_atof / modp_dtoa at precision 2: the real conversions are asked once per schema)
+        anyf = next((f for f, (ty, _) in sorted(meta.fields.items()) if G.FT_FLOAT <= ty <= G.FT_END_FLOAT), None)
+        real1 = G.render_real(built, schema, [(anyf, t) for t in BAD_FLOATS]) if anyf else []
+        real2 = G.render_real(built, schema, [(anyf, r if r is not None else b"0") for r in real1]) if anyf else []
         k = 0
         for _ in range(2000):
             mt, hdr, body, trl = gen.message()
             cand = [f for f in all_fields(body) if is_float(meta, f.fnum)]
-            if not cand:
+            if not cand or not anyf:
                 continue
             f = rng.choice(cand)
-            f.val = rng.choice(BAD_FLOATS)
-            items = [(f.fnum, f.val)]
-            real = G.render_real(built, schema, items)
-            if real[0] is None:
+            j = rng.randrange(len(BAD_FLOATS))
+            if real1[j] is None:
                 continue
-            table = "%d:%s=%s" % (meta.fields[f.fnum][0], f.val.hex(), real[0].hex() or "-")
+            f.val = BAD_FLOATS[j]
+            ty = meta.fields[f.fnum][0]
+            table = "%d:%s=%s" % (ty, f.val.hex(), real1[j].hex() or "-")
             # the wire carries the rendered text: the decoder's re-rendering of THAT text is needed too
-            real2 = G.render_real(built, schema, [(f.fnum, real[0])])
-            if real2[0] is not None and real2[0] != real[0]:
-                table += ",%d:%s=%s" % (meta.fields[f.fnum][0], real[0].hex() or "-", real2[0].hex() or "-")
+            if real2[j] is not None and real2[j] != real1[j]:
+                table += ",%d:%s=%s" % (ty, real1[j].hex() or "-", real2[j].hex() or "-")
             cs.append(Case(px + "RT s " + G.ser_msg(mt, hdr, body, trl) + " " + table, "float-value-changed"))
             k += 1
             if k >= (40 if thorough else 12):
